@@ -51,7 +51,7 @@ def run(tier, workers=None):
 
     faults = {
         "histories": [[], [("put", "cal", "a.ics", "X")], [("put", "cal", "a.ics", "X"), ("put", "cal", "b.ics", "Z")]],
-        "ops": [("put", "cal", "a.ics", "X2"), ("delete", "cal", "a.ics"), ("proppatch", "cal", "displayname", "d1"), ("post", "cal", "T")] + ([("mkcalendar", "c2"), ("put", "ab", "a.vcf", "K")] if tier == "thorough" else []),
+        "ops": [("put", "cal", "a.ics", "X2"), ("delete", "cal", "a.ics"), ("proppatch", "cal", "displayname", "d1"), ("post", "cal", "T")] + ([("put", "ab", "a.vcf", "K"), ("put", "cal", "b.ics", "Z")] if tier == "thorough" else []),
     }
     return e1common.run_configs("C01", tier, configs(tier), depth_of, workers=workers, seeds=seeds, assumptions=ASSUME + [
         "fault phase: at three states, every single placement of an ENOSPC failure on a mutating file-system call of PUT/DELETE/PROPPATCH/POST; a request that then fails must change nothing observable and must not wedge the collection",
